@@ -1,6 +1,7 @@
 package main
 
 import (
+	"os"
 	"fmt"
 	"go/types"
 	"sort"
@@ -76,6 +77,9 @@ func runC05(p *Prog, r *Report) {
 	}
 	if want("C05.8") {
 		ruleAtomicAlignment(p, r, "C05.8")
+	}
+	if want("C05.19") {
+		ruleAtomicDiscipline(p, r, "C05.19", os.Getenv("LVCHECK_DUMP_ATOMIC") != "")
 	}
 	if want("C05.18") {
 		// concurrent allocators never receive the same file number
